@@ -1,6 +1,8 @@
 package c17
 
 import (
+	"bytes"
+	"encoding/hex"
 	"encoding/json"
 	"fmt"
 	"os"
@@ -14,6 +16,7 @@ import (
 	"gitlab.com/gomidi/midi/v2"
 	"gitlab.com/gomidi/midi/v2/drivers"
 	"gitlab.com/gomidi/midi/v2/drivers/midicatdrv"
+	"gitlab.com/gomidi/midi/v2/zverif/cable"
 	"gitlab.com/gomidi/midi/v2/zverif/ev"
 	"pgregory.net/rapid"
 )
@@ -812,4 +815,149 @@ func TestRaceReplay(t *testing.T) {
 		t.Skip()
 	}
 	ev.ReplayAll(t)
+}
+
+// ---- many concurrent senders on one out-port ---------------------------------------------------
+
+// SendersCase: Senders goroutines send PerSender unique messages each to the same out-port.
+type SendersCase struct {
+	Senders, PerSender int
+	MaxLen             int // messages are 3..MaxLen bytes long
+}
+
+func runSenders(c SendersCase) (res ev.Result) {
+	res.Nontrivial = c.Senders >= 2
+	env, err := cable.New()
+	if err != nil {
+		panic("harness: stand-in environment: " + err.Error())
+	}
+	defer env.Close()
+	out := env.Outs[0]
+	if s := call("out.Open", func() {
+		if err := out.Open(); err != nil {
+			panic(err)
+		}
+	}); s != "" {
+		res.Violation = s
+		return
+	}
+	msg := func(sender, seq int) []byte {
+		n := 3 + (sender*7+seq*13)%(c.MaxLen-2)
+		m := make([]byte, n)
+		m[0] = 0xF0
+		m[1], m[2] = byte(sender), byte(seq>>7)
+		for i := 3; i < n; i++ {
+			m[i] = byte(seq+i) & 0x7F
+		}
+		m[n-1] = byte(seq & 0x7F)
+		return m
+	}
+	var wg sync.WaitGroup
+	errs := make([]string, c.Senders)
+	start := make(chan struct{})
+	for s := 0; s < c.Senders; s++ {
+		wg.Add(1)
+		go func(s int) {
+			defer wg.Done()
+			<-start
+			for q := 0; q < c.PerSender; q++ {
+				if err := out.Send(msg(s, q)); err != nil {
+					errs[s] = fmt.Sprintf("sender %d message %d: Send on the open port: %v", s, q, err)
+					return
+				}
+			}
+		}(s)
+	}
+	done := make(chan struct{})
+	go func() { wg.Wait(); close(done) }()
+	close(start)
+	select {
+	case <-done:
+	case <-time.After(10 * callTimeout):
+		res.Violation = "concurrent senders did not finish: a Send call blocks"
+		return
+	}
+	for _, e := range errs {
+		if e != "" {
+			res.Violation = e
+			return
+		}
+	}
+	marker := []byte{0xFA, 0xFA, 0xFA, 0xFA, 0xFA, 0xFA, 0xFA}
+	if err := out.Send(marker); err != nil {
+		res.Violation = fmt.Sprintf("Send of the closing marker: %v", err)
+		return
+	}
+	tail := []byte(fmt.Sprintf(" %X\n", marker))
+	logPath := filepath.Join(env.Dir, "out-0.log")
+	var got []byte
+	deadline := time.Now().Add(arriveTimeout)
+	for {
+		got, _ = os.ReadFile(logPath)
+		if bytes.HasSuffix(got, tail) {
+			break
+		}
+		if time.Now().After(deadline) {
+			res.Violation = fmt.Sprintf("the line of the last message did not reach the helper within %v (%d bytes received)", arriveTimeout, len(got))
+			return
+		}
+		time.Sleep(2 * time.Millisecond)
+	}
+	// every line the helper received must be exactly one of the lines sent, each once, and the
+	// lines of one sender in the order they were sent
+	next := make([]int, c.Senders)
+	lines := bytes.Split(bytes.TrimSuffix(got, []byte("\n")), []byte("\n"))
+	for i, l := range lines[:len(lines)-1] {
+		sp := bytes.IndexByte(l, ' ')
+		var m []byte
+		if sp >= 0 {
+			m, _ = hex.DecodeString(string(l[sp+1:]))
+		}
+		if sp < 0 || len(m) < 3 || int(m[1]) >= c.Senders {
+			res.Violation = fmt.Sprintf("line %d received by the helper is none of the lines sent: %q (%d senders x %d messages)", i, clipLine(l), c.Senders, c.PerSender)
+			return
+		}
+		s := int(m[1])
+		if next[s] >= c.PerSender || !bytes.Equal(m, msg(s, next[s])) {
+			res.Violation = fmt.Sprintf("line %d received by the helper: %q is not message %d of sender %d (lines of concurrent senders mixed, lost, repeated or reordered)", i, clipLine(l), next[s], s)
+			return
+		}
+		next[s]++
+	}
+	for s, n := range next {
+		if n != c.PerSender {
+			res.Violation = fmt.Sprintf("sender %d: %d of its %d messages reached the helper", s, n, c.PerSender)
+			return
+		}
+	}
+	return
+}
+
+func clipLine(l []byte) string {
+	if len(l) > 60 {
+		return string(l[:60]) + "..."
+	}
+	return string(l)
+}
+
+var senders = ev.NewCheck("C17", "midicatdrv-concurrent-senders",
+	"enumeration (race-detector build): 2, 4 or 8 goroutines send 150..300 unique messages of 3..40 or 3..600 bytes each to the same out-port of the process-backed driver at the same time; the harness reads what the stand-in helper received; oracle: every received line is exactly one of the lines sent, each exactly once, the lines of one sender in sending order (no line of one sender cut in two by a line of another), every Send returns nil within the watchdog, no data race report; non-trivial = >= 2 senders",
+	nil, runSenders)
+
+func TestRaceConcurrentSenders(t *testing.T) {
+	if !raceMode() {
+		t.Skip("runs in the race build")
+	}
+	senders.R.Exhaustive = true
+	cases := []SendersCase{{2, 300, 40}, {4, 200, 40}, {8, 150, 40}, {4, 150, 600}}
+	if ev.Thorough() {
+		cases = append(cases, SendersCase{8, 1000, 40}, SendersCase{16, 300, 600})
+	}
+	for i, c := range cases {
+		if i%ev.Shards() != ev.Shard()%ev.Shards() {
+			continue
+		}
+		logHistory("midicatdrv-concurrent-senders", c)
+		senders.One(t, c)
+	}
 }
